@@ -17,6 +17,7 @@ import (
 	"bytes"
 	"encoding/binary"
 	"encoding/json"
+	"errors"
 	"fmt"
 	"io"
 	"log"
@@ -58,6 +59,20 @@ type Program struct {
 type machineryError struct{ msg string }
 
 func (e machineryError) Error() string { return e.msg }
+
+// errAbort: the store could not be opened (recorded as the Open record's result,
+// judged by TLC); the rest of the program cannot run.
+var errAbort = errors.New("program aborted: Open failed")
+
+func environmental(msg string) bool {
+	for _, s := range []string{"no space left", "too many open files", "permission denied",
+		"resource temporarily unavailable", "cannot allocate memory"} {
+		if strings.Contains(msg, s) {
+			return true
+		}
+	}
+	return false
+}
 
 type execer struct {
 	p      *Program
@@ -327,8 +342,17 @@ func (x *execer) step(op *Op) error {
 			}
 			return err
 		})
-		if x.st == nil {
-			return machineryError{"cannot open store: " + msg}
+		if x.st == nil || code != 0 {
+			if environmental(msg) {
+				return machineryError{"cannot open store: " + msg}
+			}
+			if x.st != nil {
+				guard(x.st.Close)
+				x.st = nil
+			}
+			ev["res"], ev["msg"], ev["o"] = code, msg, 0
+			x.emit(ev)
+			return errAbort
 		}
 	case "Close":
 		st := x.st
@@ -400,7 +424,7 @@ func (x *execer) step(op *Op) error {
 	}
 	ev["res"] = code
 	if msg != "" {
-		if strings.Contains(msg, "no space left") || strings.Contains(msg, "too many open files") {
+		if environmental(msg) {
 			return machineryError{op.Op + ": " + msg}
 		}
 		ev["msg"] = msg
@@ -452,6 +476,9 @@ func runProgram(p *Program, base string, emit func(map[string]interface{})) erro
 			}
 			if j < len(p.Ops) && p.Ops[j].Op == "Kill" {
 				if err := runChild(p, i, j, dir, base, emit); err != nil {
+					if err == errAbort {
+						return nil
+					}
 					return err
 				}
 				emit(map[string]interface{}{"ev": "Kill", "res": 0, "o": 0})
@@ -460,6 +487,9 @@ func runProgram(p *Program, base string, emit func(map[string]interface{})) erro
 			}
 		}
 		if err := x.step(op); err != nil {
+			if err == errAbort {
+				return nil
+			}
 			return err
 		}
 	}
@@ -503,6 +533,9 @@ func runChild(p *Program, from, to int, dir, base string, emit func(map[string]i
 		}
 		if ev["ev"] == "Machinery" {
 			return machineryError{fmt.Sprintf("child: %v", ev["msg"])}
+		}
+		if ev["ev"] == "Abort" {
+			return errAbort
 		}
 		ev["child"] = 1
 		emit(ev)
@@ -550,7 +583,9 @@ func TestVerifChild(t *testing.T) {
 			err = x.step(&cs.Prog.Ops[i])
 		}
 	}
-	if err != nil {
+	if err == errAbort {
+		emit(map[string]interface{}{"ev": "Abort"})
+	} else if err != nil {
 		emit(map[string]interface{}{"ev": "Machinery", "msg": err.Error()})
 	}
 	// no Close, no deferred functions, no flush: the process just stops existing
